@@ -42,8 +42,8 @@ class Conv:
     def __init__(self, ctx, q: str):
         M, W = ctx.M, ctx.W
         self.q = q
-        self.fn = M.fn(q)
-        self.ty = W.typer(q, None)
+        self.fn = M.nfn(q)
+        self.ty = W.typer_for(self.fn)
         self.file = M.mods[self.fn.mod].rel
         self.name = q.split(".")[-2]
         self.src_game, self.tgt_game = games_of(self.name)
